@@ -29,3 +29,16 @@ package sonic
 //@   ensures (fz(result).decoderOpts & decoder.OptionCaseSensitive != 0) <==> cfg.CaseSensitive
 //@   ensures (fz(result).decoderOpts & decoder.OptionUseUnicodeErrors != 0) <==> cfg.UseUnicodeErrors
 //@   ensures fz(result).decoderOpts &^ (decoder.OptionNoValidateJSON | decoder.OptionUseInt64 | decoder.OptionUseNumber | decoder.OptionDisableUnknown | decoder.OptionCopyString | decoder.OptionValidateString | decoder.OptionCaseSensitive | decoder.OptionUseUnicodeErrors) == 0
+
+// Unmarshal / UnmarshalFromString (C01, C18): a definitional wrapper - the frozen
+// decoder options are the ones the decoder runs with, the decoder's error is returned
+// as is, and otherwise the result is nil exactly when only RFC 8259 white space follows
+// the decoded value.
+//@ func (frozenConfig).UnmarshalFromString props C01,C18 mode bv
+//@   modifies anything
+//@   panics_if (cfg.decoderOpts & decoder.OptionUseNumber != 0) && (cfg.decoderOpts & decoder.OptionUseInt64 != 0)
+//@   after Decode: assert dec.f == uint64(cfg.decoderOpts) && same(dec.s, buf)
+//@   witness derr error = err
+//@   witness pos int = dec.i
+//@   ensures derr != nil ==> result == derr
+//@   ensures derr == nil ==> ((result == nil) <==> (forall k int :: (pos <= k && k < len(buf)) ==> (buf[k] == 0x20 || buf[k] == 0x09 || buf[k] == 0x0d || buf[k] == 0x0a)))
